@@ -81,6 +81,13 @@ fn registry() -> Vec<CheckDef>
 			case_timeout_ms: 20_000,
 			level_text: "exhaustive enumeration of all statement trees over {block, if, if-else, else-if chains, goto, loop, assignment, label} up to a size and nesting bound, each compiled by the real first-generation pipeline and compared with a reference placement model: verdict, codes E800/E801/E840 with their lines, and the exact set of L1800 lints",
 		},
+		CheckDef {
+			id: "C05",
+			drive: checks::c05::drive,
+			work: checks::c05::work,
+			case_timeout_ms: 20_000,
+			level_text: "exhaustive enumeration (up to renaming) of all function bodies built from two variables, their uses, two labels, gotos, conditional gotos, loops and nested blocks up to a size bound, each compiled by the real first-generation pipeline and judged against the scoping model (lexical rules, documented prune rule) and an independent control-flow path analysis",
+		},
 	]
 }
 
